@@ -500,3 +500,102 @@ func RunConcurrentSavesCase(seed int64) *HistResult {
 	res.Events = sys.Log.Len()
 	return res
 }
+
+// RunOldRunningJobRetentionCase (C12; seed C12-c was caught by two cases only): the OLDEST job of a pipeline is still
+// running while more than retention_count newer jobs of the pipeline have finished (concurrency 4). A save never removes
+// the running job, keeps at most retention_count finished jobs and of those the newest; API and store agree afterwards.
+// Variants: the running job is the oldest / the second oldest; 1-3 saves; a second running job in the middle.
+func RunOldRunningJobRetentionCase(seed int64) *HistResult {
+	res := &HistResult{Seed: seed, Situations: map[string]map[string]struct{}{}, Evaluations: map[string]int{}}
+	find := func(sig, format string, args ...any) {
+		res.Findings = append(res.Findings, Finding{Props: []string{"C12"}, Sig: sig, Detail: fmt.Sprintf(format, args...), Step: -1})
+	}
+	keep := 1 + int(seed%2)
+	extra := 1 + int(seed/2)%3
+	runnerPos := int(seed/6) % 2 // the long-running job is the oldest (0) or the second oldest (1)
+	midRunner := (seed/12)%2 == 1
+	def := definition.PipelineDef{Concurrency: 4, RetentionCount: keep, SourcePath: "gen", Tasks: map[string]definition.TaskDef{"t": {Script: []string{"true"}}}}
+	st := &core.RecStore{}
+	sys, err := core.NewSys(&definition.PipelinesDef{Pipelines: map[string]definition.PipelineDef{"p": def}}, st, core.NewMemOutputStore())
+	if err != nil {
+		res.Inconclusive = err.Error()
+		return res
+	}
+	defer sys.Close()
+	defer DrainAll(sys)
+	var order []string // acceptance order = creation order
+	running := map[string]bool{}
+	total := runnerPos + 1 + keep + extra
+	for i := 0; i < total; i++ {
+		id, cls := sys.Schedule(0, "p", nil, "u")
+		if cls != "ok" {
+			res.Inconclusive = "schedule: " + cls
+			return res
+		}
+		order = append(order, id)
+		stays := i == runnerPos || (midRunner && i == runnerPos+2)
+		if stays {
+			running[id] = true
+		}
+		if _, err := sys.Quiesce(core.QuiesceOpts{Watchdog: 20 * time.Second}); err != nil {
+			res.Inconclusive = err.Error()
+			return res
+		}
+		if !stays {
+			sys.Release(id, "t", core.Outcome{Kind: core.OutOK})
+			if _, err := sys.Quiesce(core.QuiesceOpts{Watchdog: 20 * time.Second}); err != nil {
+				res.Inconclusive = err.Error()
+				return res
+			}
+		}
+		time.Sleep(2 * time.Millisecond) // distinct creation times also on a coarse clock
+	}
+	res.sit("C12", fmt.Sprintf("old job still running (position %d, second runner=%v) while %d newer jobs finished, retention_count %d", runnerPos, midRunner, total-len(running), keep))
+	for s := 0; s < 1+int(seed/24)%3; s++ {
+		sys.Save(0)
+		v := sys.Snapshot(-1)
+		res.Evaluations["C12"]++
+		var finishedKept []int
+		for i, id := range order {
+			j := v.ByID(id)
+			if running[id] {
+				if j == nil {
+					find("C12:unfinished-job-removed", "job %d of the pipeline is still running and was removed by the save", i)
+				}
+				continue
+			}
+			if j != nil {
+				finishedKept = append(finishedKept, i)
+			}
+		}
+		if len(finishedKept) > keep {
+			find("C12:more-finished-jobs-than-retention-count", "pipeline p (retention_count %d): %d finished jobs remain after the save while an older job (position %d) is still running", keep, len(finishedKept), runnerPos)
+		}
+		// the kept finished jobs are the newest finished ones
+		nFinished := 0
+		for _, id := range order {
+			if !running[id] {
+				nFinished++
+			}
+		}
+		rank := 0
+		for i := len(order) - 1; i >= 0 && rank < len(finishedKept); i-- {
+			if running[order[i]] {
+				continue
+			}
+			if v.ByID(order[i]) == nil {
+				find("C12:newer-finished-job-removed-while-older-kept", "finished job %d was removed by the save while an older finished job is kept (kept positions %v)", i, finishedKept)
+				break
+			}
+			rank++
+		}
+		if saves := st.Saves(); len(saves) > 0 {
+			last := saves[len(saves)-1]
+			if len(last.Jobs) != len(v.Jobs) {
+				find("C12:store-differs-from-api", "the store holds %d jobs, the API reports %d after the save", len(last.Jobs), len(v.Jobs))
+			}
+		}
+	}
+	res.Events = sys.Log.Len()
+	return res
+}
